@@ -20,6 +20,8 @@ import (
 const SSTablePrefix = "sstable"
 const SSTablePattern = SSTablePrefix + "_%015d"
 const SSTableCompactionPathPrefix = SSTablePrefix + "_compaction"
+const MemstoreFlushPathPrefix = "memstore_flush"
+const MemstoreFlushPattern = MemstoreFlushPathPrefix + "_%015d"
 const CompactionFinishedSuccessfulFileName = "compaction_successful"
 const WriteAheadFolder = "wal"
 const MemStoreMaxSizeBytes uint64 = 1024 * 1024 * 1024 // 1gb
